@@ -741,3 +741,102 @@ func childMain() {
 	}
 	os.Exit(0)
 }
+
+// TestC11_FieldSweep: deterministic sweep over the signature material of every signed
+// base (the 4-byte words in which it differs from its unsigned sibling): each word is
+// replaced, in both byte orders, by values that overflow 32-bit offset/count arithmetic
+// or exceed any plausible size. Random corruption rarely hits one particular count field
+// with one particular class of value; the sweep hits all of them.
+func TestC11_FieldSweep(t *testing.T) {
+	shard, shards := evid.EnvInt("VERIF_SHARD", 0), evid.EnvInt("VERIF_SHARDS", 1)
+	maxPerBase := evid.EnvInt("VERIF_C11_SWEEP_WORDS", 1500)
+	values := []uint32{0xfffffff0, 0x08000000, 0x7fffffff, 0x00ffffff}
+	unsigned := map[string]*base{}
+	for _, b := range bases {
+		if !b.signed {
+			unsigned[b.format+"/"+b.name] = b
+		}
+	}
+	idx := 0
+	swept := 0
+	for _, b := range bases {
+		if !b.signed {
+			continue
+		}
+		u := unsigned[b.format+"/"+b.name]
+		var words []int
+		for i := 0; i+4 <= len(b.data); i += 4 {
+			if u == nil || i+4 > len(u.data) || !bytes.Equal(b.data[i:i+4], u.data[i:i+4]) {
+				words = append(words, i)
+			}
+		}
+		if len(words) > maxPerBase {
+			step := len(words)/maxPerBase + 1
+			var thin []int
+			for i := 0; i < len(words); i += step {
+				thin = append(thin, words[i])
+			}
+			words = thin
+		}
+		for _, off := range words {
+			for vi, v := range values {
+				for _, be := range []bool{true, false} {
+					idx++
+					if idx%shards != shard {
+						continue
+					}
+					data := append([]byte(nil), b.data...)
+					putInt(data, off, 4, uint64(v), be)
+					entry := "verify"
+					if (off/4+vi)%5 == 0 {
+						entry = "issigned"
+					}
+					swept++
+					if msg := sweepCase(b, entry, data, fmt.Sprintf("word@%d=%#x be=%v", off, v, be)); msg != "" {
+						t.Fatal(msg)
+					}
+				}
+			}
+		}
+	}
+	rec.Set("field_sweep_cases", swept)
+}
+
+func sweepCase(b *base, entry string, data []byte, op string) string {
+	p := filepath.Join(workDir, "sweep-"+b.name)
+	if err := os.WriteFile(p, data, 0o644); err != nil {
+		return err.Error()
+	}
+	defer os.Remove(p)
+	res, death := runInChild(caseReq{Entry: entry, SigType: b.sigType, Path: p, Name: b.name}, len(data))
+	h := sha256.Sum256(append([]byte(entry+"|"+b.sigType+"|"), data...))
+	outcome := "child-died"
+	if res != nil {
+		outcome = res.Status
+	}
+	rec.Case(fmt.Sprintf("%x", h[:12]), fmt.Sprintf("sweep/%s/%s/%s", entry, b.sigType, outcome), true)
+	site, what := verdict(entry, b.sigType, len(data), res, death)
+	if site == "" {
+		return ""
+	}
+	key := "C11:" + site
+	if knownSet.Has(key) {
+		rec.Excluded(key)
+		return ""
+	}
+	if collect {
+		if _, ok := seenNew[key]; !ok {
+			seenNew[key] = fmt.Sprintf("%s %s base=%s %s: %s", entry, b.sigType, b.name, op, trunc(what, 1500))
+			fn := filepath.Join(os.Getenv("VERIF_C11_COLLECT"), strings.NewReplacer("/", "_", ":", "_", "*", "", "(", "", ")", "").Replace(site))
+			os.WriteFile(fn+".bin", data, 0o644)
+			meta, _ := json.MarshalIndent(map[string]any{"key": key, "entry": entry, "module": b.sigType, "name": b.name, "what": trunc(what, 3000)}, "", " ")
+			os.WriteFile(fn+".json", meta, 0o644)
+		}
+		return ""
+	}
+	evid.SaveCase("TestC11_FieldSweep", map[string]any{"entry": entry, "module": b.sigType, "base": b.name, "base_signed": true, "mutations": []string{op}, "input_len": len(data), "finding_key": key, "error": what, "input_file": "TestC11_FieldSweep.input.bin"})
+	if dir := os.Getenv("VERIF_REPLAY_OUT"); dir != "" {
+		os.WriteFile(filepath.Join(dir, "TestC11_FieldSweep.input.bin"), data, 0o644)
+	}
+	return fmt.Sprintf("%s on the signed %s with %s (entry %s):\n%s", key, b.name, op, entry, trunc(what, 4000))
+}
